@@ -16,6 +16,85 @@ import (
 )
 
 func init() {
+	register("drive-park", "direction A (schedule replay): one preemption at every hook point of the victim producer, operator-level scenarios", func(args []string) int {
+		fs := flag.NewFlagSet("drive-park", flag.ExitOnError)
+		seed := fs.Int64("seed", 1, "seed")
+		n := fs.Int("n", 20, "number of scenarios")
+		out := fs.String("out", "trace.ndjson", "output NDJSON")
+		scen := fs.String("scenarios", "", "write the scenarios (JSON lines) here")
+		maxHits := fs.Int("maxhits", 80, "cap on preemption positions per scenario")
+		_ = fs.Int("par", 1, "ignored (park mode is sequential: the hook is global)")
+		_ = fs.Parse(args)
+		kernel.InstallHooks()
+		r := rand.New(rand.NewSource(*seed))
+		w, err := rec.NewWriter(*out)
+		if err != nil {
+			fmt.Fprintln(os.Stderr, err)
+			return 2
+		}
+		var sf *os.File
+		var enc *json.Encoder
+		if *scen != "" {
+			sf, _ = os.Create(*scen)
+			enc = json.NewEncoder(sf)
+		}
+		t := 0
+		runOne := func(sc kernel.OpScenario, at int) int {
+			t++
+			pk := rec.NewParker(at)
+			ro.SetVerifHook(pk.Hook)
+			lg := &rec.Log{T: t}
+			done := make(chan []rec.Ev, 1)
+			go func() { done <- kernel.RunOpPark(lg, sc, *seed*7919+int64(t), pk) }()
+			var evs []rec.Ev
+			select {
+			case evs = <-done:
+			case <-time.After(4 * time.Second):
+				pk.Release()
+				lg.Add(rec.Ev{E: "hang", S: pk.Point})
+				evs = lg.Events()
+			}
+			ro.SetVerifHook(nil)
+			w.Write(evs)
+			if enc != nil {
+				_ = enc.Encode(map[string]any{"t": t, "scenario": sc, "park_at": at, "point": pk.Point})
+			}
+			return pk.Hits()
+		}
+		for i := 0; i < *n; i++ {
+			sc := kernel.GenOp(r)
+			sc.Len = 2 + r.Intn(3)
+			sc.Slow = 0
+			// terminals and unsubscription are where the check-then-act windows matter: bias towards them
+			for k := range sc.Ends {
+				sc.Ends[k] = []string{"E", "C", "E", "C", ""}[r.Intn(5)]
+			}
+			sc.Unsub = r.Intn(3) == 0
+			if sc.K > 2 {
+				sc.K = 2
+				sc.Ends = sc.Ends[:2]
+				if sc.Head == "Merge3" {
+					sc.Head = "Merge"
+				}
+				if sc.Head == "CombineLatest3" {
+					sc.Head = "CombineLatest2"
+				}
+			}
+			hits := runOne(sc, 1<<30) // reference run: counts the victim's hook points
+			if hits > *maxHits {
+				hits = *maxHits
+			}
+			for at := 1; at <= hits; at++ {
+				runOne(sc, at)
+			}
+		}
+		w.Close()
+		if sf != nil {
+			sf.Close()
+		}
+		fmt.Printf("{\"traces\": %d, \"events\": %d}\n", t, w.N)
+		return 0
+	})
 	register("drive-kernel", "direction B: concurrent kernel/subject traces for ContractTrace.tla", func(args []string) int {
 		fs := flag.NewFlagSet("drive-kernel", flag.ExitOnError)
 		seed := fs.Int64("seed", 1, "seed")
@@ -23,6 +102,7 @@ func init() {
 		out := fs.String("out", "trace.ndjson", "output NDJSON")
 		par := fs.Int("par", 4, "traces run in parallel")
 		scen := fs.String("scenarios", "", "write the scenarios (JSON lines) here")
+		ops := fs.Bool("ops", false, "operator-level scenarios (multi-source operators / subjects behind pass-through operators)")
 		yield := fs.Bool("yield", true, "yield mode of the library hooks")
 		_ = fs.Parse(args)
 		kernel.InstallHooks()
@@ -31,8 +111,13 @@ func init() {
 		}
 		r := rand.New(rand.NewSource(*seed))
 		scs := make([]kernel.Scenario, *n)
+		oscs := make([]kernel.OpScenario, *n)
 		for i := range scs {
-			scs[i] = kernel.Gen(r)
+			if *ops {
+				oscs[i] = kernel.GenOp(r)
+			} else {
+				scs[i] = kernel.Gen(r)
+			}
 		}
 		res := make([][]rec.Ev, *n)
 		sem := make(chan struct{}, *par)
@@ -47,11 +132,17 @@ func init() {
 				// which no action of the trace specification explains
 				done := make(chan []rec.Ev, 1)
 				lg := &rec.Log{T: i + 1}
-				go func() { done <- kernel.RunWithLog(lg, scs[i], *seed*100003+int64(i)) }()
+				go func() {
+					if *ops {
+						done <- kernel.RunOp(lg, oscs[i], *seed*100003+int64(i))
+					} else {
+						done <- kernel.RunWithLog(lg, scs[i], *seed*100003+int64(i))
+					}
+				}()
 				select {
 				case evs := <-done:
 					res[i] = evs
-				case <-time.After(60 * time.Second):
+				case <-time.After(25 * time.Second):
 					lg.Add(rec.Ev{E: "hang"})
 					res[i] = lg.Events()
 				}
@@ -71,7 +162,11 @@ func init() {
 			f, _ := os.Create(*scen)
 			enc := json.NewEncoder(f)
 			for i, s := range scs {
-				_ = enc.Encode(map[string]any{"t": i + 1, "scenario": s})
+				if *ops {
+					_ = enc.Encode(map[string]any{"t": i + 1, "scenario": oscs[i]})
+				} else {
+					_ = enc.Encode(map[string]any{"t": i + 1, "scenario": s})
+				}
 			}
 			f.Close()
 		}
